@@ -236,7 +236,7 @@ fn stub(element: Element, digest: &str) -> Element {
                 created_tx: previous.created_tx,
                 updated_tx: previous.updated_tx,
                 origin: previous.origin,
-                governance: purge_marker(digest),
+                governance: purged_block(&previous.governance, digest),
                 $($extra: $value,)?
                 ..Default::default()
             };
@@ -257,6 +257,23 @@ fn stub(element: Element, digest: &str) -> Element {
         Element::Evidence(row) => erase!(Evidence, EvidenceRow, row),
         Element::Activity(row) => erase!(Activity, ActivityRow, row),
     }
+}
+
+/// The Governance block of a purged stub: the marker, under the classification
+/// the element had.
+///
+/// The classification is not content. It decides who may learn that the
+/// element exists at all, and a stub without it falls back to the Space
+/// default — erasing a `secret` element would hand its stub (id, kind,
+/// creation coordinates, digest) to every reader the default admits.
+fn purged_block(previous: &Json, digest: &str) -> Json {
+    let mut block = purge_marker(digest);
+    if let (Some(classification), Some(members)) =
+        (previous.get("classification"), block.as_object_mut())
+    {
+        members.insert("classification".to_string(), classification.clone());
+    }
+    block
 }
 
 /// The Governance block a purged stub carries.
